@@ -5,6 +5,10 @@ func init() {
 		ID:    "C08",
 		Title: "Lexing and parsing terminate on every input and end in a program or an error",
 		Rules: []string{
+			"R-NILPARSE: in the parser no result of a parse function and no AST-interface parameter is dereferenced without a dominating non-nil test (they are nil after a recorded error)",
+			"R-EOFTOKEN: abstractly executing NextToken and its callees with l.char == 0 up to the first consuming call, only EOF or ILLEGAL tokens can be built",
+			"R-TOKTABLE: the token-name table indexed by error messages has a non-empty entry for every TokenType constant",
+			"R-ASSERT / R-BOUNDS / R-PANICCALL over everything reachable from lexer.New, NextToken, parser.New and ParseProgram",
 			"R-PROGRESS: every lexer/parser loop consumes input on each pass and leaves at end of input and on every sticky token; every recursion cycle contains a consuming call",
 		},
 		Decided:     "TODO",
@@ -13,6 +17,15 @@ func init() {
 		Run: func(m *Model, s *Sink) {
 			m.RunProgress(s, "R-PROGRESS")
 			m.RunDelim(s, "R-DELIM")
+			m.RunTokTable(s, "R-TOKTABLE")
+			m.RunNilParse(s, "R-NILPARSE")
+			m.RunEOFToken(s, "R-EOFTOKEN")
+			// the lexer and parser themselves cannot panic: assertions, bounds, nil results
+			r := m.Roots()
+			lp := m.reachableFns(r.LexParse)
+			m.newAssertChecker(s).Run("R-ASSERT", lp)
+			m.newBoundsChecker(s).Run("R-BOUNDS", "R-DIVGUARD", lp)
+			m.RunPanicCall(s, "R-PANICCALL", lp)
 		},
 	})
 }
